@@ -91,4 +91,17 @@ CLAIMS["C04"] = {
     "note": "Trusts: comparator verdicts in {0,1,2} and a strict partial order (C01); list snapshot semantics; scan of 0-2 members is representative (uniform loop body).",
 }
 
+CLAIMS["C03"] = {
+    "category": "other",
+    "technique": "decision tables by abstract interpretation in the order-symbol domain (nondominated_cmp, tournament); provenance/order algebra (set -> sort -> prefix); affine stencil rules for crowding distance",
+    "text": "Decides: the comparison key of truncation by a complete 9-row decision table (front order x crowding order) extracted from "
+            "nondominated_cmp; that truncation is sorted(set(population), that key)[:size] by value provenance; the crowding-distance "
+            "stencil (small fronts infinite; zero-init outside and accumulation across the objective loop; marker excluded; per-objective "
+            "sort; boundary positions infinite; interior range(1,n-1) with neighbours i+-1 and normalisation by the same objective's range) "
+            "by affine/structural rules; and the tournament by a table over (front order, comparator verdict) showing it never returns the "
+            "worse front nor the dominated candidate and only returns population members. Tables are complete for their abstraction, so "
+            "they cover all populations, which tests sample once. The numeric side-clauses for tied objective values are not decided.",
+    "note": "Trusts: set() de-duplication through Individual.__eq__/__hash__ (C20), sorted() ascending and stable, random.sample distinctness, comparator semantics (C01).",
+}
+
 NOT_APPLICABLE = {}
